@@ -1,10 +1,10 @@
 SPECIFICATION Spec
 CONSTANTS
-  Msgs = {1, 2, 3}
+  Msgs = {1, 2}
   MaxParts = 2
   Refs = {7, 8}
   SameRef = FALSE
-  Echo = TRUE
+  Echo = FALSE
   MaxResend = 1
-INVARIANTS Unmixed AtMostOnce Paired
+PROPERTY Refines
 CHECK_DEADLOCK FALSE
